@@ -25,6 +25,9 @@ pub struct Cfg {
     pub anon_records: bool,
     pub trk: bool,
     pub trkz: bool,
+    /// script constants may own drop-tracked values (only the differential families, whose
+    /// ledger keeps what compilation created as a baseline, switch this on)
+    pub trk_consts: bool,
     pub fns: (usize, usize),
     pub max_depth: u32,
     pub max_stmts: usize,
@@ -74,6 +77,7 @@ impl Cfg {
             anon_records: false,
             trk: false,
             trkz: false,
+            trk_consts: false,
             fns: (1, 5),
             max_depth: 5,
             max_stmts: 7,
@@ -101,6 +105,7 @@ impl Cfg {
             anon_records: true,
             trk: true,
             trkz: true,
+            trk_consts: false,
             fns: (1, 4),
             max_depth: 4,
             effects: 15,
@@ -124,6 +129,7 @@ impl Cfg {
             anon_records: true,
             trk: true,
             trkz: true,
+            trk_consts: false,
             fns: (1, 4),
             max_depth: 4,
             effects: 30,
@@ -251,6 +257,25 @@ impl Gen {
             opts.push(Ty::TrkZ);
         }
         opts[self.rng.usize(opts.len())].clone()
+    }
+
+    /// May a constant have this type? (see `program`)
+    fn const_ok(&self, t: &Ty) -> bool {
+        match t {
+            Ty::Trk => self.cfg.trk && self.cfg.trk_consts,
+            Ty::TrkZ | Ty::Trk1 | Ty::List(_) | Ty::Param(_) | Ty::Unit => false,
+            Ty::Opt(a) => self.const_ok(a),
+            Ty::Verdict(a, r) => self.const_ok(a) && self.const_ok(r),
+            Ty::Anon(fs) => fs.iter().all(|(_, t)| self.const_ok(t)),
+            Ty::Named(d, args) => {
+                args.iter().all(|a| self.const_ok(a))
+                    && match &self.prog.types[*d] {
+                        TypeDecl::Record { fields, .. } => fields.iter().all(|(_, t)| self.const_ok(&t.subst(args))),
+                        TypeDecl::Enum { variants, .. } => variants.iter().all(|(_, ts)| ts.iter().all(|t| self.const_ok(&t.subst(args)))),
+                    }
+            }
+            _ => true,
+        }
     }
 
     /// A random value type (no Unit, no type parameters).
@@ -1898,12 +1923,28 @@ impl Gen {
         let nc = if self.cfg.consts == 0 { 0 } else { self.rng.usize(self.cfg.consts + 1) };
         let mut const_infos = Vec::new();
         for i in 0..nc {
-            let ty = match self.rng.below(4) {
+            let mut ty = match self.rng.below(4) {
                 0 if self.cfg.strings => Ty::Str,
                 1 if self.cfg.floats => Ty::F64,
                 2 => Ty::Bool,
                 _ => Ty::Int(*self.rng.pick(&self.cfg.ints.clone())),
             };
+            // aggregate constants (records, enums, options, nested): their fields are read
+            // through paths `K_0.a.b` like those of any other visible name. Drop-tracked host
+            // values only where the family's ledger keeps a baseline (cfg.trk_consts: they
+            // are created at compile time, outside the per-call accounting), and no lists (a list constant is shared, mutable state across calls).
+            if (self.cfg.options || !self.prog.types.is_empty()) && self.rng.chance(1, 2) {
+                for _ in 0..6 {
+                    let t = self.value_ty(2);
+                    if self.const_ok(&t) && !matches!(t, Ty::Anon(_)) {
+                        if !matches!(t, Ty::Int(_) | Ty::Bool | Ty::F32 | Ty::F64 | Ty::Char | Ty::Str) {
+                            self.tag("decl:const-aggregate".into());
+                        }
+                        ty = t;
+                        break;
+                    }
+                }
+            }
             self.in_const = true;
             self.push_scope();
             let saved = self.cfg.effects;
